@@ -31,7 +31,8 @@ CFG = dict(
                   "strconv.ParseFloat + fmt.Sprint oracle table shipped with each case"],
     assumptions=["outputs that are unstable between identical runs (map-iteration order; C08's subject) are re-run (bounded budget) and not counted as leaks",
                  "source-listing profiles give every function its own file and every location one line (two functions per file / inlined lines make weblist's output follow map order)",
-                 "profiles are generated without numeric-label units (conflicting units make pprof print warnings in map order)",
+                 "profiles carry at most ONE numeric tag with conflicting units (one warning per report; several conflicting tags are printed in map order); its key is unique per profile",
+                 "what a report prints through the UI is part of its compared output, except the 'Generating report in <temp file>' line",
                  "web: the configuration a request's report is generated with is not observable from outside; the model's status prediction covers only applyURL errors (400)"],
     shard=30,
 )
